@@ -670,6 +670,13 @@ func (m Model) ApplyStep(par *LoggerModel, stp Step, ndest *int) *LoggerModel {
 			par.Fields = append(append([]ExpField{}, par.Fields...), f...)
 		}
 		return par
+	case "rehook":
+		hs := append([]modelHook{}, par.Hooks...)
+		for _, h := range stp.Hooks {
+			hs = append(hs, modelHook{Kind: "user", Spec: h})
+		}
+		par.Hooks = hs
+		return par
 	case "hook":
 		hs := append([]modelHook{}, l.Hooks...)
 		for _, h := range stp.Hooks {
